@@ -399,6 +399,14 @@ def deliver_burst(world, t, chunks):
     world.reactor.iterate()
 
 
+def deliver_multi(world, items):
+    """One select() round reports several sockets readable: each is read once, all within ONE loop iteration - what the
+    protocols scheduled for 'later' then runs after all of them have been read."""
+    for t, c in items:
+        world.reactor.add_io(t._read_ready, c)
+    world.reactor.iterate()
+
+
 def peer_fin(world, t):
     world.reactor.add_io(t._read_eof)
     world.reactor.iterate()
